@@ -23,16 +23,17 @@ LEAN_MODULES = ["TapkeeVerif.Props.C11"]
 LEAN_EXES = ["model_c11"]
 REQUIRED_THEOREMS = [
     "TapkeeVerif.Landmarks.landmarks_distinct_and_counted",
+    "TapkeeVerif.Landmarks.selectLandmarks_defined",
     "TapkeeVerif.Landmarks.lmds_landmarks_eq_mds_of_subset",
     "TapkeeVerif.Landmarks.triangulate_fixes_landmarks",
-    "TapkeeVerif.Landmarks.lmds_exact_recovery_partial",
-    "TapkeeVerif.Landmarks.lmds_exact_recovery_refuted",
+    "TapkeeVerif.Landmarks.lmds_exact_recovery",
     "TapkeeVerif.Landmarks.ratio_one_eq_nonlandmark",
     "TapkeeVerif.Landmarks.lisomap_ratio_one_partial",
     "TapkeeVerif.Landmarks.lisomap_ratio_one_refuted",
     "TapkeeVerif.Landmarks.rightCols_inbounds_iff",
     "TapkeeVerif.Landmarks.lmds_oob_iff",
-    "TapkeeVerif.Landmarks.validation_does_not_bound_dimension",
+    "TapkeeVerif.Landmarks.validated_inbounds",
+    "TapkeeVerif.Landmarks.lmds_validated_not_oob",
 ]
 
 # -O0: the four method classes under ASan+UBSan compile in ~35 s instead of ~70 s at -O1; matrices are <= 32 x 32
@@ -110,9 +111,9 @@ def gen_tri(r, quick):
             e = r.range(-2, 3)
             v = "%d" % (2 ** e) if e >= 0 else "1/%d" % (2 ** -e)
             lam.append(("-" if r.chance(1, 6) else "") + v)
-        div0 = r.chance(1, 12) and len(set(lm)) < n
+        div0 = r.chance(1, 8)
         if div0:
-            lam[r.below(d)] = "0"
+            lam[r.below(d)] = "0"                                   # vanishing eigenvalue: pseudo-inverse column
         mu = [dy(r, 0, 20, 2) for _ in range(nl)]
         cases.append(("tri n=%d d=%d lm=%s dist=%s V=%s lam=%s mu=%s" % (
             n, d, show_idx(lm), show_mat(dist), show_mat(V), ",".join(lam), ",".join(mu)), div0))
@@ -233,13 +234,6 @@ def judge_tri(run, cases):
         ctx.stat("cmp:exact")
         if io.startswith("abort:"):
             ctx.fail("tri:" + io, "triangulate aborts (%s)" % io, case=line, detail={"model": mo})
-            continue
-        if mo == "tri ERR:div0":
-            ctx.stat("tri:div0")
-            if not re.search(r"nan|inf", io):
-                ctx.broken("corr:tri-div0", "correspondence triangulate (division by a zero eigenvalue)",
-                           "model reaches divZero, implementation returns finite rows", case=line,
-                           detail={"impl": io, "model": mo})
             continue
         if io != mo:
             ctx.broken("corr:tri", "correspondence triangulate vs Landmarks.triangulate (exact mode)",
@@ -406,18 +400,7 @@ def judge_lmds(run, cases):
                            "the dense eigensolver's answer violates its contract: " + t.get("eig", "?"), case=c.line, detail=detail)
         post = t.get("post", "?")
         model = t.get("model")
-        if model == "ERR:sqrtneg":
-            ctx.stat("lmds:sqrt-of-negative-eigenvalue")
-            if post != "nonfinite":
-                ctx.broken("corr:lmds-sqrtneg", "correspondence LandmarkMDS (sqrt of a negative eigenvalue)",
-                           "an eigenvalue is negative (no sqrt value exists) but the implementation returns finite rows",
-                           case=c.line, detail=detail)
-        elif model == "ERR:div0":
-            ctx.stat("lmds:model-div0")
-            if post == "finite" and nl < c.n:
-                ctx.broken("corr:lmds-div0", "correspondence LandmarkMDS (zero eigenvalue)",
-                           "model divides by a zero eigenvalue, implementation returns finite rows", case=c.line, detail=detail)
-        elif post.startswith("diff"):
+        if post.startswith("diff") or post == "nonfinite":
             ctx.broken("corr:lmds-post", "correspondence LandmarkMDS: embedding vs lmdsEmbed on the solver's own (V, lambda)",
                        "the returned embedding differs from the model's triangulation (%s)" % post, case=c.line, detail=detail)
         # oracle: distance reproduction
@@ -435,7 +418,7 @@ def judge_lmds(run, cases):
                     sig = "lmds:distances:" + ("rank-deficient" if adim < c.d else "full-rank")
                     ctx.fail(sig, "Landmark MDS does not reproduce the pairwise distances of Euclidean data of affine dimension %d "
                              "<= target_dimension %d although the %d landmarks affinely span it (%s%s)"
-                             % (adim, c.d, nl, dist, "; an eigenvalue of the landmark Gram matrix is zero and is divided by"
+                             % (adim, c.d, nl, dist, "; a selected eigenvalue of the landmark Gram matrix vanishes"
                                 if adim < c.d else ""), case=c.line, detail=detail)
             else:
                 ctx.stat("oracle:distance-hypothesis-absent")
@@ -525,9 +508,6 @@ def judge_lisomap(run, cases):
             continue
         pre = t.get("pre", "?")
         ctx.stat("cmp:exact" if c.exact else "cmp:approx")
-        if t.get("model") == "ERR:sqrtneg":
-            ctx.stat("lisomap:root-of-negative-eigenvalue")
-            continue
         if pre.startswith("diff") or pre.startswith("bad") or (c.exact and pre != "eq"):
             ctx.broken("corr:lisomap-pre", "correspondence LandmarkIsomap: matrix handed to the eigensolver vs lisomapPre",
                        "the matrix Landmark Isomap hands to the eigensolver differs from the model (%s)" % pre,
@@ -535,7 +515,7 @@ def judge_lisomap(run, cases):
         if t.get("root") != "ok":
             ctx.stat("lisomap:root-contract-bad")
         post = t.get("post", "?")
-        if t.get("model") == "ok" and post.startswith("diff"):
+        if t.get("model") == "ok" and (post.startswith("diff") or post == "nonfinite"):
             ctx.broken("corr:lisomap-post", "correspondence LandmarkIsomap: embedding vs lisomapPost on the solver's own (V, lambda)",
                        "the returned embedding differs from the model (%s)" % post, case=c.line, detail=detail)
         if len(ctx.cov["samples"]) < 6 and c.n <= 8:
